@@ -152,6 +152,28 @@ fn ob_alphabet(n_orders: usize, with_overflow: bool) -> Vec<ObCall> {
     v
 }
 
+/// few calls, so that longer sequences can be enumerated: crossing placements at two prices,
+/// cancels, one re-pricing modify per order, trading toggles
+fn ob_alphabet_reduced(n_orders: usize) -> Vec<ObCall> {
+    let mut v = Vec::new();
+    for bid in [true, false] {
+        for price in [2 * TICK, 3 * TICK] {
+            v.push(ObCall::Place { bid, vol: 2, price: Some(price) });
+        }
+    }
+    for id in 0..n_orders {
+        v.push(ObCall::Cancel { id });
+        v.push(ObCall::Modify { id, price: Some(if id % 2 == 0 { 3 * TICK } else { 2 * TICK }), vol: None });
+    }
+    v.push(ObCall::Disable);
+    v.push(ObCall::Enable);
+    v
+}
+
+thread_local! {
+    static OB_REDUCED: std::cell::Cell<bool> = std::cell::Cell::new(false);
+}
+
 fn ob_build(calls: &[ObCall]) -> OrderBook {
     let mut b: OrderBook = OrderBook::new(0, ob_tick(), start_trading());
     for (k, c) in calls.iter().enumerate() {
@@ -173,7 +195,8 @@ fn ob_rec(w: &mut Writer, dir: &str, hist: &mut Vec<ObCall>, depth_left: usize, 
     let base = ob_build(hist);
     let n_orders = base.get_orders().len();
     drop(base);
-    for c in ob_alphabet(n_orders, true) {
+    let alphabet = if OB_REDUCED.with(|r| r.get()) { ob_alphabet_reduced(n_orders) } else { ob_alphabet(n_orders, true) };
+    for c in alphabet {
         let mut b = ob_build(hist);
         let k = hist.len();
         let (ret, exc) = ob_apply(&mut b, k, &c);
@@ -190,7 +213,7 @@ fn ob_rec(w: &mut Writer, dir: &str, hist: &mut Vec<ObCall>, depth_left: usize, 
             })
             .collect();
         let state = ob_state(&b);
-        let mut line = json!({"id": id, "kind": "ob", "tick": ob_tick(), "calls": calls_json, "exp": {"ret": ret, "exc": exc, "state": state}});
+        let mut line = json!({"id": id, "kind": "ob", "tick": ob_tick(), "trading": start_trading(), "calls": calls_json, "exp": {"ret": ret, "exc": exc, "state": state}});
         if hist.len() <= snap_depth && exc.is_none() {
             // snapshot exchange in both directions
             let rs = format!("{}/rust_snap_{}.json", dir, id);
@@ -735,6 +758,16 @@ pub fn c18(tier: &str) -> i32 {
     let mut w = Writer { f: std::io::BufWriter::new(std::fs::File::create(format!("{}/traces.jsonl", dir)).unwrap()), n: 0, calls: 0 };
     let mut rust_snaps = Vec::new();
     ob_rec(&mut w, &dir, &mut Vec::new(), if t { 4 } else { 3 }, 3, &mut rust_snaps);
+    // longer sequences over a reduced alphabet, from books constructed with trading on and off
+    // (state a wrapper may carry from one call to the next needs a history to go stale)
+    OB_REDUCED.with(|r| r.set(true));
+    for start in [true, false] {
+        START_TRADING.with(|s| s.set(start));
+        let mut none = Vec::new();
+        ob_rec(&mut w, &dir, &mut Vec::new(), if t { 5 } else { 4 }, 0, &mut none);
+    }
+    START_TRADING.with(|s| s.set(true));
+    OB_REDUCED.with(|r| r.set(false));
     let n_ob = w.n;
     for seed in [0u64, 1, 101] {
         env_rec(&mut w, seed, &mut Vec::new(), if t { 5 } else { 4 }, seed == 0, seed != 1, 2, usize::MAX);
